@@ -67,4 +67,13 @@ theorem C18_stop_switches_are_the_sources :
     Gen.ConfigSrc.removeOnlyOwn = some Config.removeOnlyOwn ∧
     Gen.ConfigSrc.connectFailCloses = some Config.connectFailCloses := by decide
 
+/-- C04: the `AvpAddress.value` getter turns every failure of decoding the payload into the library's AVP decode error -/
+theorem C04_address_switch_is_the_sources : Gen.ConfigSrc.addrGuard = some Config.addrGuard := by decide
+
+/-- C05: the reader discards an undecodable frame only when its length field is positive, and after discarding it
+    falls through to the "fewer than 20 octets left: wait" test -/
+theorem C05_frame_switches_are_the_sources :
+    Gen.ConfigSrc.frameSkipZeroGuard = some Config.frameSkipZeroGuard ∧
+    Gen.ConfigSrc.frameFallThrough = some Config.frameFallThrough := by decide
+
 end DV.Node
